@@ -6,7 +6,7 @@ package auth
 // (bcrypt MinCost) and records, after every step, the real outcome of the call and the projection of the real
 // state (user documents, session documents, verified-password cache, presenter control points).
 // Concurrent presentations of one session are forced through a gating decorator around the datastore:
-// every storage operation of a presenter (Get session | Update(user, cancel) | Delete session) waits for the
+// every storage operation of a presenter (Get session | Set session = TTL refresh | Update(user, cancel) | Delete session) waits for the
 // scheduler, so the behaviour's interleaving is the one executed.  No property is asserted here.
 
 import (
@@ -120,11 +120,11 @@ type vC12World struct {
 	ctx    context.Context
 	ds     base.DataStore
 	bi     int
-	pw     map[string]string   // model password -> concrete string
-	wrongs []string            // concrete strings standing for "wrong"
-	sid    map[string]string   // slot -> real session id
-	epoch  map[string]int      // SessionUUID -> small id (first appearance)
-	hpw    map[string]string   // bcrypt hash -> model password it verifies under the full check
+	pw     map[string]string // model password -> concrete string
+	wrongs []string          // concrete strings standing for "wrong"
+	sid    map[string]string // slot -> real session id
+	epoch  map[string]int    // SessionUUID -> small id (first appearance)
+	hpw    map[string]string // bcrypt hash -> model password it verifies under the full check
 	pres   [vC12K]*vC12Presenter
 	wrongI int
 }
@@ -237,14 +237,15 @@ func (w *vC12World) state(users, slots []string) vObj {
 		var ls LoginSession
 		id, issued := w.sid[s]
 		if !issued {
-			S[s] = vObj{"exists": false, "user": "", "epoch": 0, "oneTime": false}
+			S[s] = vObj{"exists": false, "user": "", "epoch": 0, "oneTime": false, "aged": false}
 			continue
 		}
 		if _, err := w.ds.Get(w.ctx, a.DocIDForSession(id), &ls); err != nil {
-			S[s] = vObj{"exists": false, "user": "", "epoch": 0, "oneTime": false}
+			S[s] = vObj{"exists": false, "user": "", "epoch": 0, "oneTime": false, "aged": false}
 			continue
 		}
-		S[s] = vObj{"exists": true, "user": w.model(ls.Username), "epoch": w.eid(ls.SessionUUID), "oneTime": ls.OneTime != nil && *ls.OneTime}
+		S[s] = vObj{"exists": true, "user": w.model(ls.Username), "epoch": w.eid(ls.SessionUUID), "oneTime": ls.OneTime != nil && *ls.OneTime,
+			"aged": vC12Aged(&ls)}
 	}
 	PC, L := []string{}, []vObj{}
 	for _, p := range w.pres {
@@ -254,7 +255,7 @@ func (w *vC12World) state(users, slots []string) vObj {
 			continue
 		}
 		PC = append(PC, p.pc)
-		if (p.pc == "gotS" || p.pc == "gotU") && p.seen != nil {
+		if (p.pc == "gotSr" || p.pc == "gotS" || p.pc == "gotU") && p.seen != nil {
 			L = append(L, vObj{"s": p.s, "kind": p.kind, "su": w.model(p.seen.Username), "se": w.eid(p.seen.SessionUUID),
 				"so": p.seen.OneTime != nil && *p.seen.OneTime})
 		} else {
@@ -262,6 +263,15 @@ func (w *vC12World) state(users, slots []string) vObj {
 		}
 	}
 	return vObj{"U": U, "S": S, "C": C, "PC": PC, "L": L}
+}
+
+// vC12Aged: do the stored Expiration / Ttl say that more than 10% of the TTL has elapsed (AuthenticateCookie's refresh test)
+func vC12Aged(ls *LoginSession) bool {
+	ttl := ls.Ttl
+	if ttl == 0 {
+		ttl = kDefaultSessionTTL
+	}
+	return time.Now().Add(ttl).Sub(ls.Expiration) > ttl/10
 }
 
 func vC12Res(op, u, p, s string, pr int, ok bool, who string) vObj {
@@ -306,6 +316,8 @@ func (w *vC12World) advance(p *vC12Presenter) (string, *vC12Evt) {
 	}
 	p.next = ev.op
 	switch ev.op {
+	case "PSet":
+		p.pc = "gotSr"
 	case "PGetU":
 		p.pc = "gotS"
 	case "PDel":
@@ -439,6 +451,19 @@ func TestVerif_C12_AuthSession(t *testing.T) {
 			case "DeleteSession":
 				err := a.DeleteSession(ctx, w.sessionID(st.S), "")
 				emit(st.A, st, vC12Res(st.A, "", "", st.S, 0, true, ""), vObj{"err": fmt.Sprint(err)})
+			case "Age": // time passes: the stored session looks as if 20% of its TTL had elapsed (forged like auth/session_test.go does)
+				var ls LoginSession
+				key := a.DocIDForSession(w.sessionID(st.S))
+				_, err := ds.Get(ctx, key, &ls)
+				if err == nil {
+					ttl := ls.Ttl
+					if ttl == 0 {
+						ttl = kDefaultSessionTTL
+					}
+					ls.Expiration = time.Now().Add(ttl - ttl/5)
+					err = ds.Set(ctx, key, base.DurationToCbsExpiry(ttl-ttl/5), nil, ls)
+				}
+				emit(st.A, st, vC12Res(st.A, "", "", st.S, 0, true, ""), vObj{"err": fmt.Sprint(err)})
 			case "Expire": // what the store does when the TTL passes
 				_ = ds.Delete(ctx, a.DocIDForSession(w.sessionID(st.S)))
 				emit(st.A, st, vC12Res(st.A, "", "", st.S, 0, true, ""), nil)
@@ -457,7 +482,7 @@ func TestVerif_C12_AuthSession(t *testing.T) {
 			case "AuthCookie", "AuthOneTime":
 				ok, who, errs := w.present(a, st.A, w.sessionID(st.S))
 				emit(st.A, st, vC12Res(st.A, "", "", st.S, 0, ok, who), vObj{"err": errs})
-			case "PGetS", "PGetU", "PDel":
+			case "PGetS", "PSet", "PGetU", "PDel":
 				q := vInt(st.Pr)
 				if q < 1 || q > vC12K {
 					t.Fatalf("VERIF-FATAL presenter %d out of range", q)
